@@ -124,6 +124,16 @@ func perr(op, path string, e syscall.Errno) error {
 	return &os.PathError{Op: op, Path: path, Err: e}
 }
 
+// perr2 gives an injected failure the error type the real call would have:
+// os.Rename / os.Link / os.Symlink fail with *os.LinkError, everything else with *os.PathError
+// (code that tells "rename refused" from other failures by type must meet the real type).
+func perr2(op, p1, p2 string, e syscall.Errno) error {
+	if p2 != "" && (op == "rename" || op == "link") {
+		return &os.LinkError{Op: op, Old: p1, New: p2, Err: e}
+	}
+	return perr(op, p1, e)
+}
+
 func errName(err error) string {
 	if err == nil {
 		return ""
@@ -228,7 +238,7 @@ func (d *Disk) begin(op, p1, p2 string, n int, mut bool) (idx int, flt *Fault, f
 			return idx, &f, nil, true
 		}
 		d.setErr(idx, errName(f.Errno))
-		return idx, nil, perr(op, p1, f.Errno), false
+		return idx, nil, perr2(op, p1, p2, f.Errno), false
 	}
 	return idx, nil, nil, true
 }
@@ -428,7 +438,7 @@ func (d *Disk) simple(op, p1, p2 string, mut bool, do func() error) error {
 	err := do()
 	if flt != nil && flt.Perform {
 		d.setErr(idx, errName(flt.Errno)+"(performed)")
-		return perr(op, p1, flt.Errno)
+		return perr2(op, p1, p2, flt.Errno)
 	}
 	d.done(idx, err)
 	return err
